@@ -117,7 +117,11 @@ pub fn check_program(prog: &AProg, style: &Style, debug: bool, out: &mut Vec<Fai
     let res = catch(|| if debug { assemble_debug(ast2, text) } else { assemble(ast2) });
     let res = match res {
         Ok(r) => r,
-        Err(p) => { fail(out, "C02", format!("panic:{}", panic_site(&p)), format!("assembling panicked: {p}\n{text}")); return info; }
+        Err(p) => {
+            fail(out, "C02", format!("panic:{}", panic_site(&p)), format!("assembling panicked: {p}\n{text}"));
+            if info.wellformed { fail(out, "C01", format!("no-object:panic:{}", panic_site(&p)), format!("well-formed program produced no object file: assembling panicked: {p}\n{text}")); }
+            return info;
+        }
     };
     match res {
         Err(e) => {
@@ -125,6 +129,8 @@ pub fn check_program(prog: &AProg, style: &Style, debug: bool, out: &mut Vec<Fai
             info.outcome_hash = fnv_str(&format!("{:?}", std::mem::discriminant(&e.kind)));
             if rr.violated.is_empty() && !rr.ambiguous {
                 fail(out, "C02", format!("rejects-wellformed:{:?}", e.kind), format!("well-formed program rejected with {:?}\n{text}", e.kind));
+                // C01 promises an object file with the right image for every well-formed program: none at all is a C01 failure too
+                fail(out, "C01", format!("no-object:{:?}", e.kind), format!("well-formed program produced no object file: rejected with {:?}\n{text}", e.kind));
             } else {
                 let named = refasm::kind_names(&e.kind);
                 let ok = named.iter().any(|c| rr.violated.contains(c)) || (rr.ambiguous && refasm::address_dependent(&e.kind));
